@@ -49,7 +49,7 @@ var callDepthLimit = 4096
 // evalDepthLimit bounds how deeply evalExpr/evalStatement may nest, calls
 // included. Without it deeply nested code inside a recursive function
 // multiplies the call depth limit and overflows the Go stack.
-var evalDepthLimit = 100000
+var evalDepthLimit = 50000
 
 func NewEvaluator(prog Program, lexer *Lexer, stdout io.Writer) Evaluator {
 	e := Evaluator{
